@@ -1282,6 +1282,12 @@ var (
 	rtFactory = ethcmn.FromHex("0x6000600060006000346000355af150" + "6000600160006000f550" + "00")
 	// runtime that writes its execution environment into storage, one slot each: GASLIMIT, NUMBER, TIMESTAMP, COINBASE,
 	// DIFFICULTY, GASPRICE, ORIGIN, GAS, BLOCKHASH(NUMBER-1) — whatever the node feeds the VM becomes part of the state
+	// runtime that calls itself once: the inner frame (CALLER == ADDRESS) sends 1 wei to the fresh address in calldata
+	// word 2 (creating that account), reads the balances of the accounts in words 0 and 1 (first touch of both) and
+	// reverts; the outer frame then pays the whole call value to the account in word 0. The revert has to undo an
+	// account creation that happened BEFORE two other accounts were loaded.
+	rtNest = ethcmn.FromHex("0x333014602b57" + "60606000600037" + "60006000606060006000305af150" + "600060006000600034600035" + "5af15000" +
+		"5b" + "6000600060006000600160403" + "55af150" + "6000353150" + "6020353150" + "60006000fd")
 	// the same without GASLIMIT (slot 0 receives NUMBER instead)
 	rtEnvNoGasLimit = ethcmn.FromHex("0x43600055" + "43600155" + "42600255" + "41600355" + "44600455" + "3a600555" + "32600655" + "5a600755" + "6001430340600855" + "00")
 	rtEnv = ethcmn.FromHex("0x45600055" + "43600155" + "42600255" + "41600355" + "44600455" + "3a600555" + "32600655" + "5a600755" + "6001430340600855" + "00")
@@ -1289,6 +1295,12 @@ var (
 
 // RtFactory is exported for the checks that classify recipients by code.
 var RtFactory = rtFactory
+
+// RtNest is the self-calling contract whose inner frame creates an account, touches two others and reverts.
+var RtNest = rtNest
+
+// NestFresh is a deterministic address nobody uses, for the inner frame's account creation.
+func NestFresh(label string) []byte { return ethcrypto.Keccak256([]byte("nest-fresh-" + label))[12:] }
 
 // FactoryChild is the address at which a factory (rtFactory) deploys its child.
 func FactoryChild(factory ethcmn.Address) ethcmn.Address {
@@ -1337,13 +1349,16 @@ func (g *Gen) OLVM() txgen.Tx {
 		a.Fee.Gas = int64(rapid.SampledFrom([]int{21000, 21000, 50000, 20999}).Draw(g.T, "gas"))
 		tags = append(tags, "olvm-transfer")
 	case 2: // create
-		rt := rapid.SampledFrom([][]byte{rtStore, rtRevert, rtLoop, rtKill, rtLog, rtFactory, rtEnv, rtEnv}).Draw(g.T, "rt")
+		rt := rapid.SampledFrom([][]byte{rtStore, rtRevert, rtLoop, rtKill, rtLog, rtFactory, rtEnv, rtEnv, rtNest}).Draw(g.T, "rt")
 		if g.NoBlockGasObserver && bytes.Equal(rt, rtEnv) {
 			rt = rtEnvNoGasLimit
 		}
 		a.Data = initCode(rt)
 		if len(rt) == len(rtFactory) {
 			factoryNote = ":factory"
+		}
+		if bytes.Equal(rt, rtNest) {
+			factoryNote = ":nest"
 		}
 		a.Value = big.NewInt(int64(rapid.IntRange(0, 1000).Draw(g.T, "value")))
 		a.Fee.Gas = int64(rapid.SampledFrom([]int{300000, 100000, 60000, 53000}).Draw(g.T, "gas"))
@@ -1356,6 +1371,11 @@ func (g *Gen) OLVM() txgen.Tx {
 			c := w.Contract[rapid.IntRange(0, len(w.Contract)-1).Draw(g.T, "contract")]
 			if len(w.Factories) > 0 && g.Uniform(3, "call-factory") == 0 {
 				c = w.Factories[g.Uniform(len(w.Factories), "factory")]
+			}
+			nest := false
+			if len(w.Nests) > 0 && g.Uniform(3, "call-nest") == 0 {
+				c = w.Nests[g.Uniform(len(w.Nests), "nest")]
+				nest = true
 			}
 			a.To = &c
 			arg := make([]byte, 32)
@@ -1371,6 +1391,20 @@ func (g *Gen) OLVM() txgen.Tx {
 				}
 			}
 			a.Fee.Gas = int64(rapid.SampledFrom([]int{300000, 100000, 30000, 22000}).Draw(g.T, "gas"))
+			if nest {
+				// two existing accounts (EVM senders or native users) and an address nobody has used
+				pick := func(label string) []byte {
+					if len(w.G.U.Eth) > 0 && g.Uniform(2, label) == 0 {
+						return w.G.U.Eth[g.Uniform(len(w.G.U.Eth), label+"w")].OLAddr()
+					}
+					return w.G.U.Users[g.Uniform(len(w.G.U.Users), label+"u")].Addr
+				}
+				fresh := ethcrypto.Keccak256([]byte(fmt.Sprintf("nest-fresh-%s-%d", e.Name, nonce)))[12:]
+				a.Data = append(append(ethcmn.LeftPadBytes(pick("nest-a"), 32), ethcmn.LeftPadBytes(pick("nest-b"), 32)...), ethcmn.LeftPadBytes(fresh, 32)...)
+				a.Value = big.NewInt(int64(rapid.SampledFrom([]int{1000, 1, 77777, 0}).Draw(g.T, "nvalue")))
+				a.Fee.Gas = int64(rapid.SampledFrom([]int{300000, 300000, 100000, 60000}).Draw(g.T, "ngas"))
+				tags = append(tags, "olvm-call-nest")
+			}
 			tags = append(tags, "olvm-call")
 		}
 	}
